@@ -531,3 +531,74 @@ func ExprStringNode(n ast.Node) string {
 	}
 	return fmt.Sprintf("%T", n)
 }
+
+// SingleDef returns the expression a local variable is defined from when it has exactly one defining assignment
+// (`x := e`, `x, y := e1, e2`, `var x = e`) inside body and is never assigned again; nil otherwise (including
+// multi-value calls, range variables and parameters).
+func SingleDef(info *types.Info, body ast.Node, obj types.Object) ast.Expr {
+	if obj == nil || body == nil {
+		return nil
+	}
+	var def ast.Expr
+	defs, assigns := 0, 0
+	ast.Inspect(body, func(n ast.Node) bool {
+		switch x := n.(type) {
+		case *ast.AssignStmt:
+			for i, l := range x.Lhs {
+				id, ok := l.(*ast.Ident)
+				if !ok {
+					continue
+				}
+				if info.Defs[id] == obj {
+					defs++
+					if len(x.Rhs) == len(x.Lhs) {
+						def = x.Rhs[i]
+					}
+				} else if info.Uses[id] == obj {
+					assigns++
+				}
+			}
+		case *ast.ValueSpec:
+			for i, nm := range x.Names {
+				if info.Defs[nm] == obj {
+					defs++
+					if i < len(x.Values) && len(x.Values) == len(x.Names) {
+						def = x.Values[i]
+					}
+				}
+			}
+		case *ast.IncDecStmt:
+			if id, ok := x.X.(*ast.Ident); ok && info.Uses[id] == obj {
+				assigns++
+			}
+		case *ast.UnaryExpr:
+			if x.Op == token.AND {
+				if id, ok := Unparen(x.X).(*ast.Ident); ok && info.Uses[id] == obj {
+					assigns++ // address taken: may be written through the pointer
+				}
+			}
+		}
+		return true
+	})
+	if defs != 1 || assigns != 0 {
+		return nil
+	}
+	return def
+}
+
+// ResolveLocal follows single-definition locals: for an identifier of such a local it returns the defining expression
+// (recursively); any other expression is returned unchanged.
+func ResolveLocal(info *types.Info, body ast.Node, e ast.Expr) ast.Expr {
+	for i := 0; i < 5; i++ {
+		id, ok := Unparen(e).(*ast.Ident)
+		if !ok {
+			return e
+		}
+		d := SingleDef(info, body, info.ObjectOf(id))
+		if d == nil {
+			return e
+		}
+		e = d
+	}
+	return e
+}
